@@ -15,7 +15,7 @@ PATHS = ["/tmp/x", "rel/y", "/a/b/c.txt"]
 COLORS = ["RED", "GREEN", "BLUE"]
 SHAPES = ["DOT", "BOX"]
 
-TASKS = {"TaskA", "TaskOut", "NewT", "OldT", "TaskSelf"}
+TASKS = {"TaskA", "TaskOut", "NewT", "OldT", "TaskSelf", "TaskSelfG"}
 LIGHT = {"Pre", "Init"} | TASKS
 
 # class -> {slot: kind}
@@ -42,6 +42,7 @@ SLOTS = {
     "S2": dict(a="str!", b="str"),
     "EH": dict(lv="Level", md="oMode", x="int"),
     "TaskSelf": dict(x="int", c="cfg!"),
+    "TaskSelfG": dict(x="int", c="cfg!"),
     "Leaf2": dict(i="int!", s="str"),
     "GenV": dict(x="int"),                  # gs is generated (an int, not a path)       # vpk.schema2.Leaf: same class NAME as Leaf, another module
 }
@@ -52,7 +53,7 @@ IGNORED = {"Leaf": {"m", "op", "mp"}, "Inner": {"mc", "oc"}, "Bag": {"mlc", "lp"
 DEFAULTS = {("Leaf", "f"): 1.5, ("Leaf", "s"): "a", ("Leaf", "b"): False, ("Leaf", "e"): "RED", ("Inner", "x"): 0,
             ("Inner", "name"): "", ("TaskA", "x"): 0, ("TaskOut", "x"): 0, ("Pre", "v"): 0, ("Init", "v"): 0,
             ("NewL", "i"): 0, ("OldL", "i"): 0, ("NewT", "x"): 0, ("OldT", "x"): 0, ("V2", "y"): 3, ("V2", "aa"): "dflt", ("V2", "n0"): 0, ("V2", "fl"): False, ("V2", "em"): "", ("Leaf", "od"): 5,
-            ("K1", "x"): 0, ("K2", "x"): 0, ("W1", "x"): 0, ("W2", "x"): 0, ("S2", "b"): "", ("TaskSelf", "x"): 0, ("EH", "x"): 0, ("Leaf2", "s"): "a", ("GenV", "x"): 0, ("V2", "fz"): 1.0, ("V2", "iz"): 2}
+            ("K1", "x"): 0, ("K2", "x"): 0, ("W1", "x"): 0, ("W2", "x"): 0, ("S2", "b"): "", ("TaskSelf", "x"): 0, ("TaskSelfG", "x"): 0, ("EH", "x"): 0, ("Leaf2", "s"): "a", ("GenV", "x"): 0, ("V2", "fz"): 1.0, ("V2", "iz"): 2}
 
 
 def vint(v):
@@ -468,6 +469,11 @@ def neutral_edit(rng, desc, g):
                 nd["kw"] = [[a, b] for a, b in nd["kw"] if a != s] + [[s, v]]
                 return d, kind + ":%d" % i
             if kind == "class-extension":
+                if cls == "TaskSelf":
+                    # a task class extended with a generated-path parameter (its generator asks for the task
+                    # identifier while the graph is being sealed)
+                    nd["cls"] = "TaskSelfG"
+                    return d, kind + ":task-generated-path"
                 if cls != "V1":
                     continue
                 nd["cls"] = "V2"
@@ -940,7 +946,7 @@ def selfmark_suffix(desc, pairs, nodes=None):
     import re as _re
     subs = {a["n"] for a in desc["actions"] if a["a"] == "submit"}
     subs |= {int(m) for m in _re.findall(r'"n": (\d+), "t": "out"', json.dumps(desc, sort_keys=True))}
-    selfsub = {n for n in subs if n < len(desc["nodes"]) and desc["nodes"][n]["cls"] == "TaskSelf"}
+    selfsub = {n for n in subs if n < len(desc["nodes"]) and desc["nodes"][n]["cls"] in ("TaskSelf", "TaskSelfG")}
     if not (selfsub and pairs and all(k in (3, 4) for _, k in pairs)):
         return ""
     if nodes is not None:
